@@ -253,6 +253,9 @@ func (fr *FuncRun) applyContract(f *Frame, st *State, fc *FuncContract, callee *
 		sig = callee.Signature
 		binds = fr.paramBinds(callee, args)
 		pkg = fr.eng.pkgOf(callee)
+		if fc.Extern {
+			pkg = fr.eng.pkgByPath[fc.Pkg]
+		}
 	} else {
 		sig = method.Type().(*types.Signature)
 		pkg = fr.eng.pkgByPath[method.Pkg().Path()]
@@ -280,7 +283,7 @@ func (fr *FuncRun) applyContract(f *Frame, st *State, fc *FuncContract, callee *
 			fr.heapHavoc(st, h)
 		}
 	}
-	if callee != nil {
+	if callee != nil && !fc.Extern {
 		iw := fr.eng.inferredWrites(callee)
 		var hs []string
 		for h := range iw {
@@ -313,7 +316,9 @@ func (fr *FuncRun) applyContract(f *Frame, st *State, fc *FuncContract, callee *
 	for _, en := range fc.Ensures {
 		fr.assume(st, fr.evalClause(ctx, en))
 	}
-	if fc.Trusted {
+	if fc.Extern {
+		fr.assumed["assumed contract of external "+trimPath(fc.Name)+" (declared in "+shortFile(fc.File)+")"] = true
+	} else if fc.Trusted {
 		fr.assumed["trusted contract "+trimPath(fc.Pkg)+"."+fc.Name] = true
 	}
 	return rv
